@@ -6,6 +6,8 @@ package main
 import (
 	"go/types"
 	"strings"
+
+	"golang.org/x/tools/go/ssa"
 )
 
 // classVal: Go type of the values stored in a heap class (filled as classes are first used).
@@ -85,5 +87,92 @@ func (fc *FuncCtx) heapClosure(k string, h *Term, alloc *Term) {
 		if b != True {
 			fc.assume(True, b)
 		}
+	}
+}
+
+// loopFrame: automatic frame condition of a loop. When every write to a heap class inside the
+// loop body is a direct store through a base (slice, array pointer or struct pointer) that is
+// defined outside the loop, the rows / objects of all other bases are unchanged by the loop,
+// whatever the number of iterations.
+func (fr *Frame) loopFrame(li *loopInfo, before, after *State, ws map[string]bool) {
+	fc := fr.fc
+	outside := func(v ssa.Value) bool {
+		switch x := v.(type) {
+		case *ssa.Parameter, *ssa.Const, *ssa.FreeVar, *ssa.Global:
+			return true
+		case ssa.Instruction:
+			return !li.body[x.Block()]
+		}
+		return false
+	}
+	bases := map[string][]*Term{}
+	bad := map[string]bool{}
+	for b := range li.body {
+		for _, in := range b.Instrs {
+			tmp := map[string]bool{}
+			var callees []*ssa.Function
+			fc.eng.frames.instrEffects(fr, in, tmp, &callees)
+			for _, f := range callees {
+				fc.eng.frames.addAll(tmp, fc.eng.frames.of(f, nil))
+			}
+			if len(tmp) == 0 {
+				continue
+			}
+			st, isStore := in.(*ssa.Store)
+			for k := range tmp {
+				if !isStore {
+					bad[k] = true
+					continue
+				}
+				switch a := st.Addr.(type) {
+				case *ssa.IndexAddr:
+					if !outside(a.X) {
+						bad[k] = true
+						continue
+					}
+					if _, known := fr.addrs[a.X]; known {
+						bad[k] = true // array inside a local/struct: not an Elem row
+						continue
+					}
+					switch a.X.Type().Underlying().(type) {
+					case *types.Slice:
+						bases[k] = append(bases[k], SlArr(fr.val(a.X)))
+					case *types.Pointer:
+						bases[k] = append(bases[k], fr.val(a.X))
+					default:
+						bad[k] = true
+					}
+				case *ssa.FieldAddr:
+					if !outside(a.X) {
+						bad[k] = true
+						continue
+					}
+					if _, known := fr.addrs[a.X]; known {
+						bad[k] = true
+						continue
+					}
+					bases[k] = append(bases[k], fr.val(a.X))
+				default:
+					bad[k] = true
+				}
+			}
+		}
+	}
+	for k, bs := range bases {
+		if bad[k] || !ws[k] || !(strings.HasPrefix(k, "E:") || strings.HasPrefix(k, "F:")) {
+			continue
+		}
+		s, ok := fc.heapSorts[k]
+		if !ok {
+			continue
+		}
+		h0 := fc.get(before, k, s)
+		h1 := fc.get(after, k, s)
+		r := BVar("r", SRef)
+		var conds []*Term
+		for _, b := range bs {
+			conds = append(conds, Not(Eq(r, b)))
+		}
+		fc.assume(True, Forall([]*Term{r}, Implies(And(conds...), Eq(Select(h1, r), Select(h0, r))), []*Term{Select(h1, r)}))
 	}
 }
